@@ -483,3 +483,33 @@ def c14i(ctx):
     ok = bool(fades) and all(g.guarded(n, lambda at: at.op == '<' and 'opacity' in unparse(at.left) and const_value(at.right) in (1, 1.0), True) for n, x in fades)
     ctx.check(ok, 'LayerMerger.merge:fade-below-one', 'a layer is faded exactly when its opacity is below 1.0 (%d fading sites)' % len(fades), mg,
               fail='the fading of a layer is not guarded by `opacity < 1.0` alone')
+
+
+@rule('C14.j', floor=2)
+def c14j(ctx):
+    """the clip mask is drawn from every polygon of the clip geometry: where the intersection of the request window with a coverage is a
+    collection (a polygon plus the line along which the window touches the outline), flatten_to_polygons keeps its polygon *parts* --
+    the test "is a polygon" is put to each part, not to the collection (which never is one: the mask would be empty and the clipped
+    layer vanish, or cover everything)"""
+    fn = ctx.fn('mapproxy/util/geom.py:flatten_to_polygons')
+    sites = []
+    for x in fn.walk():
+        if isinstance(x, ast.For) and contains(x.iter, lambda y: isinstance(y, ast.Attribute) and y.attr == 'geoms') and isinstance(x.target, ast.Name):
+            tests = [c for c in ast.walk(x) if isinstance(c, ast.Compare) and any(const_value(o) == 'Polygon' for o in [c.left] + c.comparators)]
+            sites.append((x.target.id, tests, x))
+        elif isinstance(x, (ast.ListComp, ast.GeneratorExp)):
+            for gen in x.generators:
+                if contains(gen.iter, lambda y: isinstance(y, ast.Attribute) and y.attr == 'geoms') and isinstance(gen.target, ast.Name):
+                    tests = [c for i in gen.ifs for c in ast.walk(i) if isinstance(c, ast.Compare) and any(const_value(o) == 'Polygon' for o in [c.left] + c.comparators)]
+                    sites.append((gen.target.id, tests, x))
+    if not sites:
+        raise Undecided('flatten_to_polygons: no iteration over .geoms found')
+    for k, (var, tests, node) in enumerate(sites):
+        ok = bool(tests) and all(contains(c, lambda y: isinstance(y, ast.Attribute) and y.attr in ('type', 'geom_type') and
+                                          isinstance(y.value, ast.Name) and y.value.id == var) for c in tests)
+        ctx.check(ok, 'flatten_to_polygons:parts#%d:type-of-the-part' % (k + 1), 'each part of a collection is kept if *it* is a polygon', fn, node,
+                  fail='flatten_to_polygons does not test the type of the part (%s) it iterates over: the polygons of a geometry collection are '
+                       'dropped / everything is kept' % var)
+    rets = returns_of(fn.node)
+    ctx.check(any(isinstance(r.value, ast.List) and len(r.value.elts) == 1 for r in rets if r.value is not None),
+              'flatten_to_polygons:single-polygon', 'a single polygon is its own one-element list', fn)
